@@ -59,6 +59,15 @@ REDIRECTS = [
     ("vecdb", "variants/compressed/sources/io.rs",
      "use std::{\n    fs::File,\n    io::{Read, Seek, SeekFrom},\n    sync::Arc,\n};",
      "use std::{\n    io::{Read, Seek, SeekFrom},\n    sync::Arc,\n};\nuse PLAT::fs::File;"),
+    ("vecdb", "variants/raw/inner/read_write/mod.rs",
+     "use std::{\n    collections::{BTreeMap, BTreeSet},\n    marker::PhantomData,\n};",
+     "use std::marker::PhantomData;\nuse PLAT::collections::{BTreeMap, BTreeSet};"),
+    ("vecdb", "variants/raw/inner/read_write/rollback.rs",
+     "use std::collections::BTreeSet;",
+     "use PLAT::collections::BTreeSet;"),
+    ("vecdb", "variants/raw/inner/read_write/change.rs",
+     "use std::collections::BTreeSet;",
+     "use PLAT::collections::BTreeSet;"),
     ("rawdb", "lib.rs",
      "            let ref_count = std::sync::Arc::strong_count(region.arc());",
      "            let ref_count = Arc::strong_count(region.arc());"),
@@ -76,6 +85,7 @@ MOUNTS = [
     ("vecdb", "base/header/inner.rs", "verif_hinner", "kani/vecdb/header_inner.rs"),
     ("vecdb", "base/header/mod.rs", "verif_header", "kani/vecdb/header.rs"),
     ("vecdb", "variants/eager/mod.rs", "verif_eager", "kani/vecdb/eager.rs"),
+    ("vecdb", "variants/raw/inner/read_write/mod.rs", "verif_raw", "kani/vecdb/raw_rw.rs"),
 ]
 
 FEATURES_VECDB = ["derive", "zerocopy"]
